@@ -202,3 +202,53 @@ def _canary(h):
     r = Intersection.lines(A, B)
     if len(r) == 2:
         h.ensure("canary-param0-at-least-half", r[0] >= Fraction(1, 2))
+
+
+def _mk_filters(n):
+    @proof(f"C14.filters[n={n}]", "C14", funcs=["curve.Intersection.filter_distance", "curve.Intersection.filter_parameters"], props=["C14"], timeout=600, tier="thorough")
+    def _(h):
+        """the two list filters of the curved branch, for all parameter values and control points: filter_distance keeps,
+        in order, exactly the pairs whose points are closer than the bound; filter_parameters keeps a pair iff no
+        earlier *kept* pair lies within the parameter distance (first occurrence wins), in order."""
+        h.assumed_contract("abs(Point2D) is the Euclidean norm: s >= 0, s*s = x*x + y*y (proved: L0.point-abs)")
+        A, ca = mk_segment(h, "a", 1, "F")
+        B, cb = mk_segment(h, "b", 1, "F")
+
+        def stub_abs(pt):
+            import z3 as _z3
+            from ..symx import lift as _lift
+
+            eng = Engine.cur
+            s_ = eng.fresh_real("norm", "F")
+            eng.assume(_z3.And(s_.t >= 0, s_.t * s_.t == _lift(pt[0] * pt[0] + pt[1] * pt[1])))
+            return s_
+
+        _abs_patch = {(Point2D, "__abs__"): stub_abs} if h.sym else {}
+        us = [h.real(f"u{i}", "F") for i in range(n)]
+        vs = [h.real(f"v{i}", "F") for i in range(n)]
+        pairs = list(zip(us, vs))
+        tol = Fraction(1e-6)
+        with h.stubs(_abs_patch):
+            out = Intersection.filter_distance(A, B, pairs, 1e-6)
+        keep = []
+        for (u, v) in pairs:
+            pa, pb = spec.bezier_eval(ca, u), spec.bezier_eval(cb, v)
+            d2 = (pa[0] - pb[0]) * (pa[0] - pb[0]) + (pa[1] - pb[1]) * (pa[1] - pb[1])
+            keep.append(d2 < tol * tol)
+        kept_idx = [i for i, p in enumerate(pairs) if any(q is p or (q[0] is p[0] and q[1] is p[1]) for q in out)]
+        h.ensure("filter_distance-keeps-exactly-the-close-pairs", AND(*[IFF(i in kept_idx, keep[i]) for i in range(n)]))
+        h.ensure("filter_distance-keeps-order-and-returns-tuple", isinstance(out, tuple) and kept_idx == sorted(kept_idx) and len(out) == len(kept_idx))
+        out2 = Intersection.filter_parameters(pairs, 1e-6)
+        kept2 = [i for i, p in enumerate(pairs) if any(q[0] is p[0] and q[1] is p[1] for q in out2)]
+        tol2 = Fraction(1e-6 ** 2)  # the code squares the float bound: use the same float
+        close = lambda i, j: (us[i] - us[j]) * (us[i] - us[j]) + (vs[i] - vs[j]) * (vs[i] - vs[j]) < tol2
+        cs = []
+        for i in range(n):
+            earlier_kept = [j for j in kept2 if j < i]
+            cs.append(IFF(i in kept2, NOT(OR(*[close(i, j) for j in earlier_kept])) if earlier_kept else True))
+        h.ensure("filter_parameters-first-occurrence-wins", AND(*cs))
+        h.ensure("filter_parameters-keeps-order", kept2 == sorted(kept2) and len(out2) == len(kept2))
+        h.ensure("inputs-not-modified", len(pairs) == n)
+
+
+_mk_filters(2)
